@@ -68,7 +68,8 @@ class Explorer:
                 outs = []
                 for k in range(nout):
                     outs.append(m.load(oa + sz * k, fty))
-                p.outs = outs
+                p.raw_outs = outs
+                p.outs = [m.lift(x, self.fbits) for x in outs]
                 if collect:
                     collect(m, p, ia, oa)
             except PathAbort as e:
